@@ -9,6 +9,7 @@ import Mathlib.Data.List.Sort
 import Mathlib.Tactic.Linarith
 import Mathlib.Tactic.Positivity
 import Mathlib.Tactic.FieldSimp
+import Mathlib.Tactic.Ring
 
 namespace Orb.Quadtree
 open Orb Orb.Core
